@@ -581,13 +581,18 @@ def sort_complex(a):
 
 
 def _array_comp_helper(a, b):
+    # a dimensionless quantity has units too: only an operand without a
+    # units attribute is a bare number, to be read in the other's unit
+    a_bare = not hasattr(a, "units")
+    b_bare = not hasattr(b, "units")
     au = getattr(a, "units", NULL_UNIT)
     bu = getattr(b, "units", NULL_UNIT)
-    if bu != au and au != NULL_UNIT and bu != NULL_UNIT:
-        b = b.in_units(au)
-    elif bu == NULL_UNIT:
+    if not a_bare and not b_bare:
+        if bu != au:
+            b = b.in_units(au)
+    elif b_bare:
         b = np.array(b) * au
-    elif au == NULL_UNIT:
+    elif a_bare:
         a = np.array(a) * bu
 
     return a, b
